@@ -175,6 +175,11 @@ pub fn cases() -> Vec<Case> {
     // two introductions of one `forall` type (shared through an alias) bind two different type variables
     v.push(case("forall/alias-introduced-twice-nested", Reject, "begin\nlet T = forall (A : VType) . A -> Thk (A -> OS) -> OS that\ndef ! outer : T = fn A x k =>\n  let inner : Thk T = { fn B y k2 => ! k2 x } in\n  ! inner String \"boom\" { fn (s : String) => ! write_line s { ! exit 0 } }\nthat\n! outer Int64 7 { fn (n : Int64) => ! exit n }\nend\n"));
     v.push(case("forall/alias-introduced-twice-nested-ok", Accept, "begin\nlet T = forall (A : VType) . A -> Thk (A -> OS) -> OS that\ndef ! outer : T = fn A x k =>\n  let inner : Thk T = { fn B y k2 => ! k2 y } in\n  ! inner String \"fine\" { fn (s : String) => ! write_line s { ! k x } }\nthat\n! outer Int64 7 { fn (n : Int64) => ! exit n }\nend\n"));
+    // a rigid variable of an enclosing introduction is not the bound variable of another quantifier of the same alias:
+    // `forall V . A -> Ret A` (A rigid) is not `forall W . W -> Ret W`
+    let endo = "let Endo = forall (W : VType) . W -> Ret W that\ndef ! at_int (endo : Thk Endo) : Ret Int64 =\n  do n <- ! endo Int64 41;\n  ! add n 1\nthat\n";
+    v.push(case("forall/rigid-variable-under-other-binder-of-alias", Reject, &format!("begin\n{endo}def ! outer : Endo =\n  fn (A : VType) (a : A) =>\n    let ! stuck : forall (V : VType) . A -> Ret A = fn (V : VType) (x : A) => ret a in\n    do m <- ! at_int stuck;\n    ret a\nthat\ndo s <- ! outer String \"not a number\";\n! exit 0\nend\n")));
+    v.push(case("forall/bound-variable-under-other-binder-of-alias-ok", Accept, &format!("begin\n{endo}def ! outer : Endo =\n  fn (A : VType) (a : A) =>\n    let ! poly : forall (V : VType) . V -> Ret V = fn (V : VType) (x : V) => ret x in\n    do m <- ! at_int poly;\n    ret a\nthat\ndo s <- ! outer String \"not a number\";\n! exit 0\nend\n")));
     // a type function applied to itself: the two quantifiers it produces are different binders
     let ff = "let F (X : CType) = forall (Y : VType) . Y -> X that\ndef ! f : F (F (Ret Int64)) = fn (A : VType) (a : A) (B : VType) (b : B) => ret 0 that\n";
     v.push(case("forall/type-function-applied-to-itself-ok", Accept, &format!("begin\n{ff}do n <- ! f String \"a\" Int64 5;\n! exit n\nend\n")));
